@@ -24,7 +24,7 @@ var allProps = []string{"C01", "C02", "C04", "C05", "C09"}
 func genReal(t *rapid.T) pipesim.Plan {
 	return pipesim.GenPlan(t, pipesim.GenOpts{
 		AllowSync: true, AllowBatched: true, AllowFailures: true, AllowDQ: true, AllowSplit: true,
-		AllowHold: true, AllowRefuse: true, AllowWaitFor: true, MaxRecords: 30, MaxSources: 3,
+		AllowHold: true, AllowRefuse: true, AllowWaitFor: true, AllowNoMatch: true, MaxRecords: 30, MaxSources: 3,
 		TimeoutFlush: rapid.IntRange(0, 9).Draw(t, "timeout_flush") == 0,
 	})
 }
@@ -38,7 +38,7 @@ func genVirtual(t *rapid.T) pipesim.Plan {
 	}
 	return pipesim.GenPlan(t, pipesim.GenOpts{
 		Virtual: true, AllowSync: true, AllowBatched: true, AllowFailures: false, AllowDQ: false, AllowSplit: true,
-		AllowHold: true, AllowRefuse: true, AllowWaitFor: false, MaxRecords: 40, MaxSources: 3, MaxCapacity: 8,
+		AllowHold: true, AllowRefuse: true, AllowWaitFor: false, AllowNoMatch: true, MaxRecords: 40, MaxSources: 3, MaxCapacity: 8,
 		TimeoutFlush: rapid.Bool().Draw(t, "timeout_flush"),
 	})
 }
